@@ -51,7 +51,10 @@ Judge(t) ==
         W2 == SetOf(t.warn2)
         W3 == SetOf(t.warn3)
         fixedRows == FixedRows(O0)
-    IN IF W1 # Report(O0)
+    IN IF t.busy = 1 /\ t.raised0 = 0 /\ SetOf(t.warn0) # Report(O0)
+       THEN "C17 check() returned while another client held the write lock and left out inconsistencies: expected "
+            \o ToJson(Report(O0)) \o " got " \o ToJson(SetOf(t.warn0))
+       ELSE IF W1 # Report(O0)
        THEN "C17 check() did not report exactly the inconsistencies of the directory: expected " \o ToJson(Report(O0)) \o " got " \o ToJson(W1)
        ELSE IF O1 # O0 THEN "C17 check() without fix changed the cache"
        ELSE IF ~(Report(O0) \subseteq W2)
